@@ -93,9 +93,16 @@ def body_for_feature(feature):
 
 
 def obligations(prefix, feature="ibig", with_meaning=True):
-    fn, slice_text, _ = body_for_feature(feature)
+    fn, slice_text, exp = body_for_feature(feature)
     vals, req = inputs()
     ctx = symex.Ctx()
+    # helper functions the body may call live in the same (macro-expanded) crate text
+    table = extract.all_fns(exp)
+    def res(name):
+        if name in table: return table[name]
+        hits = [v for k, v in table.items() if k.split("@")[0].endswith("::" + name)]
+        return hits[0] if len(hits) == 1 else None
+    ctx.resolver = res
     res, env, ctx, it = symex.run_function(fn, vals, ctx, features={feature})
     det_code = env.vars.get("determinant")
     if det_code is None or not isinstance(res, tm.T):
